@@ -968,6 +968,20 @@ func (o *Oracle) onDeliver(inc *Inc, m *Msg) {
 	if m.Kind == "RV" || m.Kind == "PV" {
 		d := inc.node.disk
 		li, lt := lastOfDisk(d)
+		if inc.r != nil {
+			// what the voter holds is its log and the snapshot it has adopted; a snapshot that was
+			// written but whose install failed (it could not be opened) is not part of its log yet,
+			// and it never acknowledged it
+			li, lt = 0, 0
+			if d.last > 0 {
+				if l, ok := d.logs[d.last]; ok {
+					li, lt = l.Index, l.Term
+				}
+			}
+			if si, st := inc.r.VerifLastSnapshot(); si > li {
+				li, lt = si, st
+			}
+		}
 		f := &delivFacts{lastIdx: li, lastTerm: lt, kvTerm: d.kvInt["CurrentTerm"], voteTerm: d.kvInt["LastVoteTerm"], voteCand: string(d.kv["LastVoteCand"])}
 		if inc.r != nil {
 			_, _, latest, _ := inc.r.VerifConfigurations()
